@@ -681,9 +681,12 @@ def value_use(name):
         """Sets the value"""
         if not isinstance(value, Value):
             raise TypeError(f"Expecting a Value instance, but got {value}")
-        # If value was already set, remove usage
+        # If value was already set, remove usage, unless another operand
+        # of this instruction still uses the same value:
         if name in self._var_map:
-            self.del_use(self._var_map[name])
+            old_value = self._var_map.pop(name)
+            if all(v is not old_value for v in self._var_map.values()):
+                self.del_use(old_value)
 
         # Place the value in the var map:
         self._var_map[name] = value
